@@ -149,17 +149,21 @@ def run_side_with_hangs(exe, cases, wd, tag, extra, limit_note):
                     cur = cases[j]["env"]
                     f.write(f"E {cur}\n")
                 f.write(C.codec_line(cases[j]) + "\n")
-        p = subprocess.Popen([exe, "codec", path] + extra, stdout=subprocess.PIPE, stderr=subprocess.PIPE, text=True,
+        # stdout goes to a file: a full pipe would block the harness inside a case and trip its watchdog
+        outp = path[:-6] + ".out"
+        p = subprocess.Popen([exe, "codec", path] + extra, stdout=open(outp, "w"), stderr=subprocess.PIPE, text=True,
                              env=dict(os.environ, TZ="UTC"),
                              preexec_fn=lambda: __import__("resource").setrlimit(
                                  __import__("resource").RLIMIT_AS, (6 << 30, 6 << 30)))
+        p._outp = outp
         return (p, i, lo, hi, gen)
     for (i, lo, hi) in jobs:
         running.append(start(i, lo, hi, 0))
     hangs = 0
     while running:
         p, i, lo, hi, gen = running.pop(0)
-        o, e = p.communicate(timeout=3000)
+        _, e = p.communicate(timeout=3000)
+        o = open(p._outp).read()
         got = [l for l in o.splitlines() if l != "env"]
         for k, l in enumerate(got):
             out[lo + k] = l
@@ -170,6 +174,8 @@ def run_side_with_hangs(exe, cases, wd, tag, extra, limit_note):
             # watchdog (hang), or the process was killed / aborted (memory limit, stack overflow)
             out[done] = "hang" if p.returncode == 3 else f"abort({p.returncode})"
             hangs += 1
+            with open(os.path.join(wd, "hangs.log"), "a") as hf:
+                hf.write(f"{out[done]} {C.codec_line(cases[done])[:300]}\n")
             if hangs > 50:
                 raise C.Undecided("too many hangs/aborts in the malformed stream")
             if done + 1 < hi:
